@@ -149,9 +149,20 @@ Definition P_kept (c : case) : bool :=
                     | None => false
                     end) (k_before c).
 
+(* a file disappears only once it is superseded: at every instant at which some name of
+   the directory is gone, every name the run creates or replaces already shows its final
+   content *)
+Definition P_superseded (c : case) : bool :=
+  let i := init_of c in
+  let outs := filter (fun n => match after_lookup c n with Some _ => changed c n | None => false end) (names_of c) in
+  forallb (fun s =>
+    negb (existsb (fun f => match lookup (fi_name f) (dir s) with None => true | Some _ => false end) (k_before c))
+    || forallb (fun n => opt_bytes_eqb (visible s n) (after_visible c n)) outs)
+    (states i (k_ops c)).
+
 Definition Pb (c : case) : bool :=
   P_modelled c && P_atomic c && P_stable c && P_transient c && P_confined c && P_kept c
-  && negb (k_outside c).
+  && P_superseded c && negb (k_outside c).
 
 (* ------------------------------------------------------ model vs observation *)
 (* the oracle choices of the run, read off the trace: output order, temp names,
@@ -236,8 +247,8 @@ Definition mismatches := mismatches_from 0%N.
 
 (* which conjunct failed, for the replay file: bit mask *)
 Definition diag (c : case) : list bool :=
-  [P_modelled c; P_atomic c; P_stable c; P_transient c; P_confined c; P_kept c; negb (k_outside c);
-   model_agrees c].
+  [P_modelled c; P_atomic c; P_stable c; P_transient c; P_confined c; P_kept c; P_superseded c;
+   negb (k_outside c); model_agrees c].
 
 (* ----------------------------------------------------------- SIGKILL cases *)
 (* A run killed at an arbitrary instant.  [q_new]: the outputs (name, complete
@@ -293,6 +304,12 @@ Definition Pb_kill (c : kcase) : bool :=
                     | Some kb => String.eqb (snd kb) (fi_bytes f)
                     | None => false
                     end) (q_before c) &&
+  (* a file is gone only if every output is already complete *)
+  (negb (existsb (fun b => match q_after_lookup c (fi_name b) with None => true | Some _ => false end) (q_before c))
+   || forallb (fun nw => match q_after_lookup c (fst nw) with
+                         | Some a => opt_nat_eqb (af_ino a) None && String.eqb (af_bytes a) (snd nw)
+                         | None => false
+                         end) (q_new c)) &&
   negb (q_outside c).
 
 (* the model's crash states: the directory after every prefix of the plan, for
